@@ -87,6 +87,10 @@ func init() {
 		run: func(c *Ctx, tier string) []*RuleResult {
 			lv := &RuleResult{Rule: "LIVE", Doc: "returned witness slices are allocated with a length not provably 0 and have a reachable populating store", MinInst: 3}
 			for _, n := range fns {
+				if c.helperGone(n) {
+					lv.note("%s no longer exists: judged through its callers", n)
+					continue
+				}
 				ruleLive(c, lv, n)
 			}
 			ro := &RuleResult{Rule: "READONLY", Doc: "the invariant functions do not modify the graph they are given", MinInst: 8}
